@@ -12,6 +12,7 @@ import (
 	"testing"
 	"time"
 
+	"github.com/go-ldap/ldap/v3"
 	"github.com/jimlambrt/gldap"
 	"pgregory.net/rapid"
 
@@ -37,6 +38,16 @@ type c07Scenario struct {
 
 type c07Custom struct{ X int }
 
+// panic values whose own Error() / String() method panics: whatever the server does with a recovered value
+// (log it, wrap it) happens inside a deferred function, where a second panic is fatal to the process
+type c07BadErr struct{ inner *c07Custom }
+
+func (e *c07BadErr) Error() string { return fmt.Sprint(e.inner.X) } // nil receiver / nil inner: dereference
+
+type c07BadStringer struct{ m map[string]int }
+
+func (s c07BadStringer) String() string { s.m["x"]++; return "never" } // nil map write
+
 func c07Panic(kind string) {
 	switch kind {
 	case "error":
@@ -46,6 +57,15 @@ func c07Panic(kind string) {
 		_ = p.X
 	case "custom":
 		panic(c07Custom{7})
+	case "typed-nil-error":
+		var e *c07BadErr
+		panic(error(e))
+	case "error-method-panics":
+		panic(&c07BadErr{})
+	case "stringer-panics":
+		panic(c07BadStringer{})
+	case "goldap-error-without-cause":
+		panic(&ldap.Error{ResultCode: ldap.LDAPResultBusy}) // go-ldap's (*Error).Error dereferences Err
 	case "index":
 		var a []int
 		_ = a[3]
@@ -505,6 +525,12 @@ func c07Enumerate() []c07Scenario {
 			}
 		}
 	}
+	// values whose Error / String method panics itself
+	for _, op := range []string{"search", "bind", "starttls", "unbind", "default"} {
+		for k, pk := range []string{"typed-nil-error", "error-method-panics", "stringer-panics", "goldap-error-without-cause"} {
+			out = append(out, c07Scenario{Fault: "handler-panic", Op: op, PanicKind: pk, AfterWrite: k%2 == 1})
+		}
+	}
 	for _, f := range []string{"malformed", "rst-midframe", "truncated-fin", "write-to-gone", "never-reads", "never-reads-then-unbind", "never-reads-then-fin", "never-reads-then-malformed", "emfile"} {
 		out = append(out, c07Scenario{Fault: f})
 	}
@@ -584,7 +610,7 @@ func tailOf(s string, n int) string {
 func TestC07Enum(t *testing.T) {
 	lab.SkipIfReplayOther(t, "enum")
 	st := lab.GetStats("C07", "enum")
-	st.SetRule("complete enumeration: handler panic (string / error / nil dereference / custom value) before and after writing a response in the handler of every operation (bind, search, modify, add, delete, extended, StartTLS, unbind, default route) plus malformed frame, RST mid-frame, truncated frame + FIN, handler writing to a client that has gone, client that never reads while the handler writes 6 MB (also followed by an Unbind, a half-close or a malformed frame while it keeps its socket open), descriptor exhaustion at accept (RLIMIT_NOFILE lowered in the child; one shortage of 30 / 400 / 1200 ms, 12 of 60 ms, 40 of 10 ms); against a TLS-configured server additionally a client that connects and stays silent or stalls inside its ClientHello; each inside verified request/response traffic of 2 bystander connections, followed by a new connection; executed in worker child processes; oracle = child survives, Run has not returned, every bystander response correct, new connection served; non-trivial = fault actually delivered while >= 1 bystander was exchanging requests; distinct by scenario")
+	st.SetRule("complete enumeration: handler panic (string / error / nil dereference / custom value; and values whose own Error or String method panics: typed-nil error, error with a nil field, Stringer writing to a nil map, a go-ldap *Error without cause) before and after writing a response in the handler of every operation (bind, search, modify, add, delete, extended, StartTLS, unbind, default route) plus malformed frame, RST mid-frame, truncated frame + FIN, handler writing to a client that has gone, client that never reads while the handler writes 6 MB (also followed by an Unbind, a half-close or a malformed frame while it keeps its socket open), descriptor exhaustion at accept (RLIMIT_NOFILE lowered in the child; one shortage of 30 / 400 / 1200 ms, 12 of 60 ms, 40 of 10 ms); against a TLS-configured server additionally a client that connects and stays silent or stalls inside its ClientHello; each inside verified request/response traffic of 2 bystander connections, followed by a new connection; executed in worker child processes; oracle = child survives, Run has not returned, every bystander response correct, new connection served; non-trivial = fault actually delivered while >= 1 bystander was exchanging requests; distinct by scenario")
 	defer lab.FlushAll()
 	if lab.ReplayInto(t, st, "enum", c07Exec) {
 		return
